@@ -354,3 +354,91 @@ def run_detachcopy(prog, ctx=None):
     if n < 1:
         raise Broken("DETACHCOPY: no counted detach implementation found")
     return res
+
+
+def run_retype(prog, ctx=None):
+    """RETYPE: when the element type of an existing buffer is replaced (store to B->_content_traits), the old content is gone
+    (B->_used = 0 on that path), or the type is unchanged (old == new tested), or the two types share their finaliser
+    (the repo's compatibility test `fini == traits->fini`); fresh buffers are exempt"""
+    res = Result("RETYPE")
+    files = set(ctx.get("files", [])) if ctx else None
+    for f in funcs_of(prog, files):
+        stores = []
+        for b, i, e in f.elements():
+            for n in walk_own(e):
+                if n.get("k") == "bin" and n.get("op") == "=":
+                    l = strip(n["a"], lvalue_to_rvalue=False)
+                    if l.get("k") == "mem" and l.get("f") == "_content_traits" and l.get("rec", "").split("::")[-1] in ("mpt_buffer", "buffer"):
+                        stores.append((b, i, n, l))
+        if not stores:
+            continue
+        # variables loaded from B->_content_traits (the old type)
+        oldvars = set()
+        for b, i, n in f.walk_all():
+            pairs = []
+            if n.get("k") == "bin" and n.get("op") == "=":
+                l = strip(n["a"], lvalue_to_rvalue=False)
+                if l.get("k") == "ref" and "id" in l["d"]:
+                    pairs.append((l["d"]["id"], n["b"]))
+            elif n.get("k") == "decl":
+                for v in n["vars"]:
+                    if v.get("init") is not None:
+                        pairs.append((v["id"], v["init"]))
+            for vid, rhs in pairs:
+                r = strip(rhs, all_casts=True)
+                if r.get("k") == "mem" and r.get("f") == "_content_traits":
+                    oldvars.add(vid)
+        if not oldvars:
+            continue      # only functions that look at the buffer's current element type re-type an existing buffer
+        PK = Analysis.PK
+        verdict = {}
+
+        def hook(an, b, i, el, st):
+            facts = set(st.get(PK) or ())
+            for n in walk_own(el):
+                if n.get("k") == "bin" and n.get("op") == "=":
+                    l = strip(n["a"], lvalue_to_rvalue=False)
+                    if l.get("k") == "mem" and l.get("f") == "_used" and cval(n["b"]) == 0:
+                        facts.add("zeroed")
+                    if l.get("k") == "ref" and "id" in l["d"]:
+                        r = strip(n["b"], all_casts=True)
+                        if r.get("k") == "bin" and r.get("op") == "=":
+                            r = strip(r["b"], all_casts=True)
+                        if r.get("k") == "call" and callee_name(r) in ("_mpt_buffer_alloc", "mpt::buffer::create", "create"):
+                            facts.add(("fresh", l["d"]["id"]))
+                    if l.get("k") == "mem" and l.get("f") == "_content_traits":
+                        base = root_of(l)
+                        ok = "zeroed" in facts or "same" in facts or "compat" in facts or ("fresh", base) in facts
+                        # no old type at all: the handle had no buffer / buffer never typed is the fresh case
+                        key = "%s:%s" % (f.qn, norm(show(n, f))[:60])
+                        if key not in verdict or not ok:
+                            verdict[key] = (ok, n.get("l", 0))
+                elif n.get("k") == "decl":
+                    for v in n["vars"]:
+                        if v.get("init") is not None:
+                            r = strip(v["init"], all_casts=True)
+                            if r.get("k") == "call" and callee_name(r) in ("_mpt_buffer_alloc", "create"):
+                                facts.add(("fresh", v["id"]))
+            st[PK] = frozenset(facts)
+
+        def edge_hook(an, b, cond, truth, st):
+            c = strip(cond, all_casts=True)
+            facts = set(st.get(PK) or ())
+            if c.get("k") == "bin" and c.get("op") in ("!=", "=="):
+                a, bb = strip(c["a"], all_casts=True), strip(c["b"], all_casts=True)
+                equal = (c["op"] == "==") == truth
+                ids = {x["d"].get("id") for x in (a, bb) if x.get("k") == "ref"}
+                if equal and ids & oldvars:
+                    facts.add("same")
+                # fini == traits->fini
+                if equal and any(x.get("k") == "mem" and x.get("f") == "fini" for x in (a, bb)):
+                    facts.add("compat")
+            st[PK] = frozenset(facts)
+
+        an = Analysis(prog, f, hook=hook, edge_hook=edge_hook)
+        st0 = an.entry_state()
+        st0[PK] = frozenset()
+        an.run(state=st0)
+        for key, (ok, line) in sorted(verdict.items()):
+            res.ob(key, ok, f, line, "" if ok else "the buffer's element type is replaced while its old content is still counted in _used: the new type's finaliser will run on elements it never constructed")
+    return res
